@@ -63,6 +63,35 @@ func (c PairCase) String() string {
 	return s
 }
 
+// pcase is the parsed form used while enumerating (no string conversions on the hot path).
+type pcase struct {
+	fn                            string
+	reverse                       bool
+	r0, r1, supply, amount, amnt1 *big.Int
+}
+
+func str(v *big.Int) string {
+	if v == nil {
+		return ""
+	}
+	return v.String()
+}
+
+func (p pcase) export() PairCase {
+	return PairCase{Fn: p.fn, Reverse: p.reverse, R0: str(p.r0), R1: str(p.r1), Supply: str(p.supply), Amount: str(p.amount), Amount1: str(p.amnt1)}
+}
+
+func (c PairCase) parse() pcase {
+	p := pcase{fn: c.Fn, reverse: c.Reverse, r0: bi(c.R0), r1: bi(c.R1), amount: bi(c.Amount)}
+	if c.Supply != "" {
+		p.supply = bi(c.Supply)
+	}
+	if c.Amount1 != "" {
+		p.amnt1 = bi(c.Amount1)
+	}
+	return p
+}
+
 // ---------------------------------------------------------------------------
 // big helpers
 
@@ -130,7 +159,7 @@ type PairBounds struct {
 
 // QuickPairBounds / ThoroughPairBounds are the two tiers.
 func QuickPairBounds() PairBounds {
-	return PairBounds{Exps: []int{3, 4, 5, 6, 8, 10, 12, 15, 18, 21, 24, 27, 30}, Mantissas: []int64{1}, RatioMax: 4000000}
+	return PairBounds{Exps: []int{3, 4, 6, 9, 12, 15, 18, 24, 30}, Mantissas: []int64{1}, RatioMax: 4000000}
 }
 func ThoroughPairBounds() PairBounds {
 	e := []int{}
@@ -335,7 +364,23 @@ type caseOut struct {
 	defined bool // the real code produced a result that was judged
 	evals   int  // real-function calls made
 	vs      []Violation
+	want    bool
 	sample  map[string]interface{}
+}
+
+// lazyCase exports the case to its string form only when a violation or a sample needs it.
+type lazyCase struct {
+	p  pcase
+	Fn string
+	x  *PairCase
+}
+
+func (l *lazyCase) get() PairCase {
+	if l.x == nil {
+		x := l.p.export()
+		l.x = &x
+	}
+	return *l.x
 }
 
 // feeOK: the fee-adjusted constant product the code documents — 0.2 % of the input stays outside the product:
@@ -361,16 +406,19 @@ func minimalIn(r0, r1, out *big.Int) *big.Int {
 }
 
 // evalPair evaluates one lattice case on the real code and judges it.
-func (e *pairEnv) evalPair(c PairCase) (o caseOut) {
-	v := e.view(c.Reverse)
-	r0, r1 := bi(c.R0), bi(c.R1)
-	amt := bi(c.Amount)
-	cls := magClass(r0, r1)
-	if c.Fn == "create" {
-		cls = magClass(amt, bi(c.Amount1))
-	}
+func (e *pairEnv) evalPair(pc pcase, wantSample bool) (o caseOut) {
+	c := &lazyCase{p: pc, Fn: pc.fn}
+	o.want = wantSample
+	v := e.view(pc.reverse)
+	r0, r1 := pc.r0, pc.r1
+	amt := pc.amount
 	bad := func(rule, format string, a ...interface{}) {
-		o.vs = append(o.vs, Violation{Signature: c.Fn + "|" + rule + "|" + cls, Detail: c.String() + ": " + fmt.Sprintf(format, a...), Replay: c})
+		cls := magClass(r0, r1)
+		if pc.fn == "create" {
+			cls = magClass(amt, pc.amnt1)
+		}
+		x := c.get()
+		o.vs = append(o.vs, Violation{Signature: pc.fn + "|" + rule + "|" + cls, Detail: x.String() + ": " + fmt.Sprintf(format, a...), Replay: x})
 	}
 	unchanged := func() bool {
 		a, b := v.Reserves()
@@ -410,7 +458,9 @@ func (e *pairEnv) evalPair(c PairCase) (o caseOut) {
 		if back == nil || back.Cmp(add(amt, n(1))) > 0 {
 			bad("roundtrip", "out=%s; buying that output back costs %v > in+1", out, back)
 		}
-		o.sample = map[string]interface{}{"case": c, "out": out.String(), "sell_for_buy_of_out": fmt.Sprint(back)}
+		if o.want {
+			o.sample = map[string]interface{}{"case": c.get(), "out": out.String(), "sell_for_buy_of_out": fmt.Sprint(back)}
+		}
 	case "buy":
 		in := v.CalculateSellForBuy(cp(amt))
 		o.evals++
@@ -454,7 +504,9 @@ func (e *pairEnv) evalPair(c PairCase) (o caseOut) {
 				}
 			}
 		}
-		o.sample = map[string]interface{}{"case": c, "in": in.String()}
+		if o.want {
+			o.sample = map[string]interface{}{"case": c.get(), "in": in.String()}
+		}
 	case "sell-exec", "buy-exec":
 		e.evalExec(c, v, r0, r1, amt, &o, bad)
 	case "mint-burn":
@@ -462,7 +514,7 @@ func (e *pairEnv) evalPair(c PairCase) (o caseOut) {
 	case "burn":
 		e.evalBurn(c, v, r0, r1, amt, &o, bad)
 	case "create":
-		e.evalCreate(c, v, amt, bi(c.Amount1), &o, bad)
+		e.evalCreate(c, v, amt, pc.amnt1, &o, bad)
 	default:
 		panic("unknown fn " + c.Fn)
 	}
@@ -471,7 +523,7 @@ func (e *pairEnv) evalPair(c PairCase) (o caseOut) {
 
 // evalExec runs the trade the way transactions do (SellWithOrders / BuyWithOrders) on an empty order book
 // and judges the change of the reserves.
-func (e *pairEnv) evalExec(c PairCase, v *swap.PairV2, r0, r1, amt *big.Int, o *caseOut, bad func(string, string, ...interface{})) {
+func (e *pairEnv) evalExec(c *lazyCase, v *swap.PairV2, r0, r1, amt *big.Int, o *caseOut, bad func(string, string, ...interface{})) {
 	// The order-aware methods print and panic when the plain quote fails the pool's own check; look at that
 	// first so that a defect there is reported once (and quietly) as a violation of this case.
 	if c.Fn == "sell-exec" {
@@ -564,11 +616,13 @@ func (e *pairEnv) evalExec(c PairCase, v *swap.PairV2, r0, r1, amt *big.Int, o *
 	if details != nil && (!eq(details.AmountIn, d0) || !eq(details.AmountOut, d1)) {
 		bad("quote-exec", "reported pool change (%s,%s) differs from the change of the reserves (%s,%s)", details.AmountIn, details.AmountOut, d0, d1)
 	}
-	o.sample = map[string]interface{}{"case": c, "trader_pays": paid.String(), "trader_receives": received.String(), "pool_in": d0.String(), "pool_out": d1.String()}
+	if o.want {
+		o.sample = map[string]interface{}{"case": c.get(), "trader_pays": paid.String(), "trader_receives": received.String(), "pool_in": d0.String(), "pool_out": d1.String()}
+	}
 }
 
-func (e *pairEnv) evalMintBurn(c PairCase, v *swap.PairV2, r0, r1, a0 *big.Int, o *caseOut, bad func(string, string, ...interface{})) {
-	s := bi(c.Supply)
+func (e *pairEnv) evalMintBurn(c *lazyCase, v *swap.PairV2, r0, r1, a0 *big.Int, o *caseOut, bad func(string, string, ...interface{})) {
+	s := c.p.supply
 	liqC, a1C := v.CalculateAddLiquidity(cp(a0), cp(s))
 	o.evals++
 	errCheck := v.CheckMint(cp(a0), cp(a1C), cp(s))
@@ -615,11 +669,13 @@ func (e *pairEnv) evalMintBurn(c PairCase, v *swap.PairV2, r0, r1, a0 *big.Int, 
 	if !eq(sub(m0, f0), b0) || !eq(sub(m1, f1), b1) {
 		bad("burn-reserves", "Burn returned (%s,%s) but the reserves fell by (%s,%s)", b0, b1, sub(m0, f0), sub(m1, f1))
 	}
-	o.sample = map[string]interface{}{"case": c, "amount1": a1C.String(), "minted": liq.String(), "returned0": b0.String(), "returned1": b1.String()}
+	if o.want {
+		o.sample = map[string]interface{}{"case": c.get(), "amount1": a1C.String(), "minted": liq.String(), "returned0": b0.String(), "returned1": b1.String()}
+	}
 }
 
-func (e *pairEnv) evalBurn(c PairCase, v *swap.PairV2, r0, r1, liq *big.Int, o *caseOut, bad func(string, string, ...interface{})) {
-	s := bi(c.Supply)
+func (e *pairEnv) evalBurn(c *lazyCase, v *swap.PairV2, r0, r1, liq *big.Int, o *caseOut, bad func(string, string, ...interface{})) {
+	s := c.p.supply
 	q0, q1 := v.Amounts(cp(liq), cp(s))
 	o.evals++
 	var b0, b1 *big.Int
@@ -650,10 +706,12 @@ func (e *pairEnv) evalBurn(c PairCase, v *swap.PairV2, r0, r1, liq *big.Int, o *
 	if err := v.CheckBurn(cp(liq), add(b0, n(1)), cp(b1), cp(s)); err == nil {
 		bad("check-consistency", "CheckBurn accepts a minimum above what Burn pays")
 	}
-	o.sample = map[string]interface{}{"case": c, "returned0": b0.String(), "returned1": b1.String()}
+	if o.want {
+		o.sample = map[string]interface{}{"case": c.get(), "returned0": b0.String(), "returned1": b1.String()}
+	}
 }
 
-func (e *pairEnv) evalCreate(c PairCase, v *swap.PairV2, a0, a1 *big.Int, o *caseOut, bad func(string, string, ...interface{})) {
+func (e *pairEnv) evalCreate(c *lazyCase, v *swap.PairV2, a0, a1 *big.Int, o *caseOut, bad func(string, string, ...interface{})) {
 	set(v, n(0), n(0))
 	prod := mul(a0, a1)
 	// pool tokens minted = floor(sqrt(a0·a1)) must exceed the locked minimum of 1000: a0·a1 ≥ 1001²
@@ -698,31 +756,31 @@ func (e *pairEnv) evalCreate(c PairCase, v *swap.PairV2, a0, a1 *big.Int, o *cas
 	if mul(b0, l).Cmp(mul(mine, a0)) > 0 || mul(b1, l).Cmp(mul(mine, a1)) > 0 {
 		bad("share", "creator removes %s of %s and receives (%s,%s): more than the proportional share", mine, l, b0, b1)
 	}
-	o.sample = map[string]interface{}{"case": c, "minted": l.String(), "creator_removes_all": []string{b0.String(), b1.String()}}
+	if o.want {
+		o.sample = map[string]interface{}{"case": c.get(), "minted": l.String(), "creator_removes_all": []string{b0.String(), b1.String()}}
+	}
 }
 
 // ---------------------------------------------------------------------------
 // enumeration
 
 // casesOfPair lists every case of one reserve pair (a = reserve in, b = reserve out) in one orientation.
-func casesOfPair(a, b *big.Int, reverse bool, dense bool, f func(PairCase)) {
-	as, bs := a.String(), b.String()
+func casesOfPair(a, b *big.Int, reverse bool, dense bool, f func(pcase)) {
 	for _, x := range sellAmounts(a, b, dense) {
-		f(PairCase{Fn: "sell", Reverse: reverse, R0: as, R1: bs, Amount: x.String()})
-		f(PairCase{Fn: "sell-exec", Reverse: reverse, R0: as, R1: bs, Amount: x.String()})
+		f(pcase{fn: "sell", reverse: reverse, r0: a, r1: b, amount: x})
+		f(pcase{fn: "sell-exec", reverse: reverse, r0: a, r1: b, amount: x})
 	}
 	for _, x := range buyAmounts(a, b, dense) {
-		f(PairCase{Fn: "buy", Reverse: reverse, R0: as, R1: bs, Amount: x.String()})
-		f(PairCase{Fn: "buy-exec", Reverse: reverse, R0: as, R1: bs, Amount: x.String()})
+		f(pcase{fn: "buy", reverse: reverse, r0: a, r1: b, amount: x})
+		f(pcase{fn: "buy-exec", reverse: reverse, r0: a, r1: b, amount: x})
 	}
 	ma := mintAmounts(a, dense)
 	for _, s := range supplies(a, b) {
-		ss := s.String()
 		for _, x := range ma {
-			f(PairCase{Fn: "mint-burn", Reverse: reverse, R0: as, R1: bs, Supply: ss, Amount: x.String()})
+			f(pcase{fn: "mint-burn", reverse: reverse, r0: a, r1: b, supply: s, amount: x})
 		}
 		for _, x := range burnAmounts(s, dense) {
-			f(PairCase{Fn: "burn", Reverse: reverse, R0: as, R1: bs, Supply: ss, Amount: x.String()})
+			f(pcase{fn: "burn", reverse: reverse, r0: a, r1: b, supply: s, amount: x})
 		}
 	}
 }
@@ -804,15 +862,16 @@ func RunPairs(b PairBounds, deadline time.Time, workers int) Result {
 				u := units[i]
 				seq := 0
 				sampled := map[string]bool{}
-				handle := func(c PairCase) {
-					o := env.evalPair(c)
+				handle := func(c pcase) {
 					seq++
+					want := sampleUnits[i] && !sampled[c.fn] && (seq%7 == 3 || c.fn == "create")
+					o := env.evalPair(c, want)
 					lCases++
 					lEvals += int64(o.evals)
-					st := local[c.Fn]
+					st := local[c.fn]
 					if st == nil {
 						st = &[3]int64{}
-						local[c.Fn] = st
+						local[c.fn] = st
 					}
 					st[0]++
 					if o.defined {
@@ -836,8 +895,8 @@ func RunPairs(b PairBounds, deadline time.Time, workers int) Result {
 						}
 						mu.Unlock()
 					}
-					if sampleUnits[i] && o.sample != nil && !sampled[c.Fn] && (seq%7 == 3 || c.Fn == "create") {
-						sampled[c.Fn] = true
+					if o.sample != nil {
+						sampled[c.fn] = true
 						mu.Lock()
 						samples[i] = append(samples[i], o.sample)
 						mu.Unlock()
@@ -846,7 +905,7 @@ func RunPairs(b PairBounds, deadline time.Time, workers int) Result {
 				if u.create != nil {
 					for _, p := range u.create {
 						for _, rv := range []bool{false, true} {
-							handle(PairCase{Fn: "create", Reverse: rv, R0: "0", R1: "0", Amount: p[0].String(), Amount1: p[1].String()})
+							handle(pcase{fn: "create", reverse: rv, r0: n(0), r1: n(0), amount: p[0], amnt1: p[1]})
 						}
 					}
 					continue
@@ -918,7 +977,7 @@ func ReplayPair(payload json.RawMessage) (bool, string) {
 	if err := json.Unmarshal(payload, &c); err != nil {
 		return false, err.Error()
 	}
-	o := newPairEnv().evalPair(c)
+	o := newPairEnv().evalPair(c.parse(), true)
 	text := c.String() + "\n"
 	if o.sample != nil {
 		b, _ := json.Marshal(o.sample)
